@@ -444,6 +444,49 @@ def stream_programs(tier, seed, start):
     return ps, i
 
 
+# ---- initial values that bind weaker than a method call -----------------------------------------------------------------
+INITIAL_SHAPES = [
+    # (name, declarations, macro kind, branch text, reference expression)
+    ("xor", "", "join", "k0 ^ k1 ..wrapping_add(k2)", "(k0 ^ k1).wrapping_add(k2)"),
+    ("not", "", "join", "!k0 ..count_ones()", "(!k0).count_ones()"),
+    ("or-count", "", "join", "k0 | k1 ..count_ones(), k2", "((k0 | k1).count_ones(), k2)"),
+    ("cast", "", "join", "k0 as u16 ..wrapping_mul(257)", "(k0 as u16).wrapping_mul(257)"),
+    ("and-then_some", "", "join", "f0 && f1 ..then_some(k0)", "(f0 && f1).then_some(k0)"),
+    ("deref", "let rr = &k1;", "join", "*rr ..wrapping_add(k0)", "(*rr).wrapping_add(k0)"),
+    ("ref", "let ar = [k0, k1];", "join", "&ar ..len()", "(&ar).len()"),
+    ("cmp-call", "", "join", "k0 < k1 -> move |c: bool| { call(1, c as u8); !c }", "!(k0 < k1)"),
+    ("xor-spawn", "", "join_spawn", "k0 ^ k1 ..wrapping_add(k2), k0 & k1 ~-> move |v: u8| { call(1, v); v ^ 1 }", "((k0 ^ k1).wrapping_add(k2), (k0 & k1) ^ 1)"),
+    ("xor-try", "", "try_join", "mo(f0, k0 ^ k1) |> move |v: u8| { call(1, v); v }, f0 || f1 ..then_some(k2)", "(match (mo(f0, k0 ^ k1), (f0 || f1).then_some(k2)) { (Some(a), Some(b)) => Some((a, b)), _ => None })"),
+    ("neg-wrapping", "let sx = (k0 >> 1) as i8;", "join", "-sx ..wrapping_abs()", "(-sx).wrapping_abs()"),
+    ("xor-async", "", "join_async", "ready(k0 ^ k1) |> move |v: u8| { call(1, v); v }, k0 ^ k1 ..wrapping_add(k2) -> ready", "(k0 ^ k1, (k0 ^ k1).wrapping_add(k2))"),
+]
+
+
+def initial_shape_programs(tier, seed, start):
+    """the initial value of a branch is an arbitrary expression: combinators apply to the WHOLE value also when it binds weaker than a method
+    call (unary / binary operator, cast, dereference, reference) - `-a ..abs()` is `(-a).abs()`"""
+    ps = []
+    i = start
+    for k, (name, decls, macro, text, ref) in enumerate(INITIAL_SHAPES):
+        i += 1
+        if tier == "quick" and (k + seed) % 2 and name not in ("xor", "or-count"):
+            continue
+        pid = "p%04d" % i
+        L = ["names_off();" if "spawn" in macro and "async" not in macro else "", "let k0 = u(); let k1 = u(); let k2 = u(); let f0 = b(); let f1 = b();", decls]
+        mtext = "%s! { %s }" % (macro, text)
+        if macro == "join_async":
+            L.append("let mut fut = %s;" % mtext)
+            L.append("let m = match poll_once(&mut fut) { Poll::Ready(v) => v, Poll::Pending => { vassert!(false, \"C01[%s]: ready futures complete with one poll\"); return; } };" % pid)
+        else:
+            L.append("let m = %s;" % mtext)
+        L.append("let r = %s;" % ref)
+        L.append("vassert!(m == r, \"C01[%s]: combinators apply to the whole initial value, whatever kind of expression it is\");" % pid)
+        L.append("vcover!(true, \"end reached\");")
+        ps.append(Program(pid, mtext, "    " + "\n    ".join(l for l in L if l), desc=dict(macro=macro, initial_value_shape=name, reference=ref), group="initial-shape",
+                          role=dict(kind=macro, shape="initial value binds weaker than a method call"), unwind=12, weight=1))
+    return ps, i
+
+
 def programs(tier, seed):
     ps = all_programs(tier, seed)
     if tier == "quick":
@@ -472,6 +515,8 @@ def all_programs(tier, seed):
     a, i = stream_programs(tier, seed, i)
     ps += a
     a, i = block_programs(tier, seed, i)
+    ps += a
+    a, i = initial_shape_programs(tier, seed, 4000)
     ps += a
     return ps
 
